@@ -120,10 +120,21 @@ class Kernel:
         """static ordinal (source order) of a loop statement inside the kernel function; loops of
         helpers executed in place are keyed '<helper>:<ordinal within the helper>'"""
         nid = node.get("id")
+
+        def walk_once(n):
+            # clang prints a lambda's body twice (inside its closure class and again as a direct
+            # child of the LambdaExpr); the interpreter executes the closure-class copy
+            yield n
+            for c in n.get("inner", ()) or ():
+                if isinstance(c, dict):
+                    if n.get("kind") == "LambdaExpr" and c.get("kind") == "CompoundStmt":
+                        continue
+                    yield from walk_once(c)
+
         if self._loop_ids is None:
             self._loop_ids = {}
             k = 0
-            for n in extract.walk(self.fn):
+            for n in walk_once(self.fn):
                 if n.get("kind") in self.LOOP_KINDS:
                     self._loop_ids[n["id"]] = k
                     k += 1
@@ -133,7 +144,7 @@ class Kernel:
         for fr in reversed(ctx.frames):
             fn = fr.fn
             k = 0
-            for n in extract.walk(fn):
+            for n in walk_once(fn):
                 if n.get("kind") in self.LOOP_KINDS:
                     if n.get("id") == nid:
                         return "%s:%d" % (fn.get("name"), k)
@@ -262,6 +273,26 @@ class Kernel:
 
     def post_exc(self, I, exc):
         I.ctx.oblige("no-exception", False, kind="post-exceptional", note="unexpected exception %r" % (exc,))
+
+    def local(self, I, name):
+        """current value of the innermost / most recently declared local called `name` (for invariants)"""
+        f = I.ctx.frame
+        while f is not None:
+            for did, b in reversed(list(f.vars.items())):
+                if isinstance(b, Loc) and b.key[0] == "L" and b.key[-1] == name:
+                    return I.ctx.load(b)
+            f = f.parent
+        raise Gap("invariant refers to unknown local %s" % name)
+
+    def local_obj(self, I, name):
+        """the object bound to the most recently declared local called `name`"""
+        f = I.ctx.frame
+        while f is not None:
+            for did, b in reversed(list(f.vars.items())):
+                if not isinstance(b, Loc) and getattr(b, "decl_name", None) == name:
+                    return b
+            f = f.parent
+        raise Gap("invariant refers to unknown local object %s" % name)
 
     # ---- violations
     def matches_known(self, finding, ob, res):
